@@ -14,6 +14,9 @@ pub trait HSet: VersionSet<V = u32> + std::hash::Hash + 'static {
     fn family(rng: &mut Rng) -> Self;
     /// versions that can matter for this set type (the doubled grid / the universe)
     fn universe() -> Vec<u32>;
+    /// false: two different sets may print alike (a legal `Display`); the oracles that read sets back from
+    /// snapshot TEXT are skipped for such a type, the result-level oracles and the mirror stay
+    const DISPLAY_INJECTIVE: bool = true;
 }
 
 impl HSet for Range<u32> {
@@ -180,5 +183,63 @@ impl HSet for BitSet2 {
     }
     fn universe() -> Vec<u32> {
         (0..2).collect()
+    }
+}
+
+/// `BitSet8` with a legal but NON-INJECTIVE `Display`: member i prints as i % 4, so {1} and {5} (and {1,5})
+/// print alike.  Nothing in the solver may depend on the text of a set.
+#[derive(Debug, Clone, PartialEq, Eq, Hash)]
+pub struct BlurSet8(pub u8);
+
+impl fmt::Display for BlurSet8 {
+    fn fmt(&self, f: &mut fmt::Formatter<'_>) -> fmt::Result {
+        let mut items: Vec<u32> = (0..8).filter(|i| self.0 >> i & 1 == 1).map(|i| i % 4).collect();
+        items.dedup();
+        write!(f, "{{{}}}", items.iter().map(|i| i.to_string()).collect::<Vec<_>>().join(","))
+    }
+}
+
+impl VersionSet for BlurSet8 {
+    type V = u32;
+    fn empty() -> Self {
+        BlurSet8(0)
+    }
+    fn singleton(v: u32) -> Self {
+        BlurSet8(if v < 8 { 1 << v } else { 0 })
+    }
+    fn complement(&self) -> Self {
+        BlurSet8(!self.0)
+    }
+    fn intersection(&self, other: &Self) -> Self {
+        BlurSet8(self.0 & other.0)
+    }
+    fn contains(&self, v: &u32) -> bool {
+        *v < 8 && self.0 >> *v & 1 == 1
+    }
+}
+
+impl HSet for BlurSet8 {
+    const KIND: &'static str = "blur";
+    const DISPLAY_INJECTIVE: bool = false;
+    fn to_machine(&self) -> String {
+        self.0.to_string()
+    }
+    fn from_machine(s: &str) -> Self {
+        BlurSet8(s.trim().parse().unwrap())
+    }
+    fn from_display(_: &str) -> Option<Self> {
+        None
+    }
+    fn family(rng: &mut Rng) -> Self {
+        match rng.below(8) {
+            0 => BlurSet8(0),
+            1 => BlurSet8(0xff),
+            2 | 3 => BlurSet8(1 << [1u8, 5, 0, 2][rng.below(4) as usize]),
+            4 => BlurSet8(0b0010_0010),
+            _ => BlurSet8(rng.below(256) as u8),
+        }
+    }
+    fn universe() -> Vec<u32> {
+        (0..8).collect()
     }
 }
